@@ -852,7 +852,7 @@ impl<'a> Model<'a> {
                     }
                     match r {
                         Ok(_) if already => {}
-                        Ok(v) => entries.push((display.clone(), v)),
+                        Ok(v) => entries.push((if *key == KeyKind::Path { it.name.clone() } else { display.clone() }, v)),
                         Err(ls) => leaves.extend(ls),
                     }
                     seen.insert(identity);
